@@ -485,6 +485,7 @@ pub fn rule_focus(with_neg: bool) -> BoxedStrategy<RuleSpec> {
     let pat = || {
         prop_oneof![
             3 => "[ab]{1,2}".prop_map(|n| n.to_string()),
+            1 => prop::sample::select(vec!["1", "5", "1*", "*5", "*1*", "12", "true", "t*"]).prop_map(|s| s.to_string()),
             2 => "[ab]{1,2}".prop_map(|n| format!("*{n}*")),
             1 => "[ab]{1,2}".prop_map(|n| format!("{n}*")),
             1 => "[ab]{1,2}".prop_map(|n| format!("i*{n}")),
@@ -510,6 +511,8 @@ pub fn rule_focus(with_neg: bool) -> BoxedStrategy<RuleSpec> {
         1 => (prop::sample::select(vec!["n1"]), small_int()).prop_map(|(f, i)| Entry { key: KeySpec::plain(f), val: ValSpec::Int(i) }),
         1 => (prop::sample::select(vec!["f1", "n1"]), small_int())
             .prop_map(|(f, i)| Entry { key: KeySpec { modifier: KMod::Int, field: f.to_string() }, val: ValSpec::Int(i) }),
+        2 => (prop::sample::select(vec!["f1", "f2", "n1"]), pat())
+            .prop_map(|(f, v)| Entry { key: KeySpec { modifier: KMod::Str, field: f.to_string() }, val: v }),
     ];
     let blk = prop::collection::vec(entry, 1..=3).prop_map(|es| {
         let mut seen: Vec<String> = vec![];
